@@ -195,6 +195,7 @@ fn answer(line: &str) -> String {
 
     // the checker `check` evaluates files with
     let mut cfg = cfg0.clone();
+    let mut valo = None;
     let checker = if f[3] == "~" {
         ThresholdChecker::new(cfg.clone())
     } else {
@@ -209,6 +210,7 @@ fn answer(line: &str) -> String {
         };
         // run_check_impl steps 2 and 4
         apply_cli_overrides(&mut cfg, &args);
+        valo = Some(sloc_guard::config::verif_validate_config_semantics(&cfg).is_ok());
         if let Some(ref e) = args.ext {
             cfg.content.extensions.clone_from(e);
         }
@@ -243,11 +245,12 @@ fn answer(line: &str) -> String {
     let exp = checker.explain(&path);
     let xexp = xchecker.explain(&path);
     format!(
-        "MV={}\tEV={}\tEXT={}\tVAL={}\tSP={}\tXC={}\tSK={}{}\tEFF={}\tCHK={}\tPFC={}\tEXP={}\tXEXP={}",
+        "MV={}\tEV={}\tEXT={}\tVAL={}\tVALO={}\tSP={}\tXC={}\tSK={}{}\tEFF={}\tCHK={}\tPFC={}\tEXP={}\tXEXP={}",
         mv,
         ev,
         enc_opt(ext.as_deref()),
         u8::from(val),
+        u8::from(valo.unwrap_or(val)),
         u8::from(sp),
         u8::from(checker.is_content_excluded(&path)),
         u8::from(sc),
